@@ -498,8 +498,28 @@ func (r *checkRun) writeEvidenceFileFull(cov map[string]any, assumptions []strin
 	if assumptions == nil {
 		assumptions = []string{}
 	}
+	level := "proof"
+	if data, err := os.ReadFile(filepath.Join(verifDir, "tools", "claims.json")); err == nil {
+		var claims struct {
+			Claims map[string]struct {
+				Category string `json:"category"`
+			} `json:"claims"`
+		}
+		if json.Unmarshal(data, &claims) == nil {
+			if c, ok := claims.Claims[r.cfg.Property]; ok && c.Category != "" {
+				level = c.Category // the level claimed in MANIFEST.json (generated from the same file)
+			}
+		}
+	}
+	if _, has := cov["explanation"]; !has {
+		nb := 0
+		if bs, ok := cov["bounded_standins"].([]map[string]any); ok {
+			nb = len(bs)
+		}
+		cov["explanation"] = fmt.Sprintf("contract obligations generated from the go/ssa of the functions under contract and discharged by SMT (obligations/discharged above; every function, its SSA hash and obligation count under functions_under_contract), plus %d bounded stand-in(s) run against the real code (bounded_standins: name, stated bound, cases; labelled bounded, never counted as proved); what is not decided is listed under not_decided", nb)
+	}
 	ev := map[string]any{
-		"property_id": r.cfg.Property, "tier": r.tier, "seed": r.seed, "level": "proof",
+		"property_id": r.cfg.Property, "tier": r.tier, "seed": r.seed, "level": level,
 		"coverage": cov, "assumptions": assumptions, "wall_s": round3(time.Since(r.start).Seconds()), "violations": violations,
 	}
 	data, _ := json.MarshalIndent(ev, "", " ")
